@@ -2,6 +2,7 @@ package drivers
 
 import (
 	"encoding/json"
+	"net"
 	"sync"
 	"time"
 
@@ -76,19 +77,55 @@ func runSerialCollect(sc int, c *serialCase, emit func(serialEv)) {
 			}
 		}
 	}()
-	conns := make([]*memnet.Conn, c.Conns+1)
+	conns := make([]feeder, c.Conns+1)
 	var ln *memnet.Listener
 	if c.Via == "server" {
 		ln = memnet.NewListener()
 		go (&diam.Server{Handler: mux, Dict: dict.Default}).Serve(ln)
 	}
+	// via "tcp": the library dials (diam.DialTimeout -> dial) a loopback TCP listener of the test,
+	// which then plays the peer over the accepted socket; without loopback the in-memory dial path is used
+	var tl net.Listener
+	if c.Via == "tcp" {
+		tl, _ = net.Listen("tcp", "127.0.0.1:0")
+	}
+	var dialled []diam.Conn
 	for k := 1; k <= c.Conns; k++ {
-		conns[k] = memnet.NewConn()
-		if c.Via == "server" {
-			ln.Push(conns[k])
-		} else {
-			diam.NewConn(conns[k], "10.0.0.2:3868", mux, dict.Default)
+		if tl != nil {
+			acc := make(chan net.Conn, 1)
+			go func() {
+				s, _ := tl.Accept()
+				acc <- s
+			}()
+			dc, err := diam.DialTimeout(tl.Addr().String(), mux, dict.Default, 2*time.Second)
+			var peer net.Conn
+			if err == nil {
+				select {
+				case peer = <-acc:
+				case <-time.After(2 * time.Second):
+				}
+			}
+			if peer != nil {
+				dialled = append(dialled, dc)
+				conns[k] = sockFeeder{peer}
+				continue
+			}
 		}
+		mc := memnet.NewConn()
+		conns[k] = mc
+		if c.Via == "server" {
+			ln.Push(mc)
+		} else {
+			diam.NewConn(mc, "10.0.0.2:3868", mux, dict.Default)
+		}
+	}
+	if tl != nil {
+		defer tl.Close()
+		defer func() {
+			for _, dc := range dialled {
+				dc.Close()
+			}
+		}()
 	}
 	msg := func(k, i int) []byte {
 		req := c.Flavour != "ans" && !(c.Flavour == "mixed" && i%2 == 0)
@@ -195,6 +232,16 @@ func runSerialCollect(sc int, c *serialCase, emit func(serialEv)) {
 		emit(e)
 	}
 }
+
+// feeder is the peer's end of a connection: bytes fed reach the library's reader.
+type feeder interface {
+	Feed([]byte)
+	Close() error
+}
+type sockFeeder struct{ c net.Conn }
+
+func (s sockFeeder) Feed(b []byte) { s.c.Write(b) }
+func (s sockFeeder) Close() error  { return s.c.Close() }
 
 func Serial(a Args) error {
 	out, err := NewOut(a.Out)
